@@ -39,7 +39,60 @@ def units(tier, seed):
         out.append({"unit": f"{spec['family']}#{spec['id']}", "spec": spec, "cost": cost, "group": "%s:%d:%d" % ((spec["family"],) + tuple(cat.nk(spec)))})
     for grp in cat.big_groups(tier, seed):
         out.append({"unit": f"group#{grp['id']}", "spec": grp, "cost": 24})
+    out.append({"unit": "constructor-argument-reuse", "spec": {"family": "arg_reuse", "id": 200000}, "cost": 3})
     return out
+
+
+def _arg_reuse(ctx):
+    """The caller's matrix tensor is edited in place and handed to a second constructor: the second object describes
+    the second matrix (nothing is keyed on tensor identity).  Whether the first object aliases the caller's tensor is
+    not judged (the property does not say)."""
+    import torch
+
+    from kaira.models.fec import encoders as E
+
+    rng = random.Random(f"c01-argreuse-{ctx.seed}")
+    for trial in range(12):
+        k, n = rng.randint(2, 5), rng.randint(6, 10)
+        Gl = cat.random_full_rank(rng, k, n, dense=True)
+        G = torch.tensor(Gl, dtype=torch.float32)
+        kinds = [("generic", lambda t: E.LinearBlockCodeEncoder(t)), ("systematic", lambda t: E.SystematicLinearBlockCodeEncoder(t[:, : n - k].contiguous() if False else t))]
+        for kind, mk in kinds[:1] + ([("systematic", lambda t: E.SystematicLinearBlockCodeEncoder(t))] if True else []):
+            T = G.clone() if kind == "generic" else torch.tensor(cat.random_matrix(rng, k, n - k), dtype=torch.float32)
+            try:
+                a = mk(T)
+            except Exception:  # noqa: BLE001
+                continue
+            Ga = a.generator_matrix.clone()
+            first = gf2.rows_from_matrix(Ga)
+            # in-place edit that keeps full rank: add row 1 to row 0 and flip one entry of the last row
+            for attempt in range(20):
+                T2 = T.clone()
+                T2[0] = (T2[0] + T2[1 % T2.shape[0]]) % 2 if T2.shape[0] > 1 else T2[0]
+                j = rng.randrange(T2.shape[1])
+                T2[-1, j] = 1 - T2[-1, j]
+                if kind == "systematic" or gf2.rank(gf2.rows_from_matrix(T2)) == k:
+                    break
+            else:
+                continue
+            T.copy_(T2)  # same tensor object, new contents
+            ctx.case("arg-reuse", kind, trial)
+            try:
+                b = mk(T)
+            except Exception as e:  # noqa: BLE001
+                ctx.violation(f"{kind}|-|constructible|raised:{type(e).__name__}", error=str(e)[:200])
+                continue
+            Gb = gf2.rows_from_matrix(b.generator_matrix)
+            Hb = gf2.rows_from_matrix(b.check_matrix)
+            orth = all(gf2.dot(g, h) == 0 for g in Gb for h in Hb)
+            ctx.check(orth and gf2.rank(Hb) == n - k, "G.Ht=0", f"{kind}|-|G.Ht=0|second encoder built from the same (edited) tensor has a check matrix of another code", trial=trial, H=b.check_matrix)
+            msgs = torch.tensor([[rng.getrandbits(1) for _ in range(k)] for _ in range(8)], dtype=torch.float32)
+            cw = b(msgs)
+            ok = bool(torch.equal(cw, (msgs @ b.generator_matrix.float()) % 2)) and bool((b.calculate_syndrome(cw) == 0).all())
+            res = b.inverse_encode(cw)
+            ok = ok and bool(torch.equal((res[0] if isinstance(res, tuple) else res).float(), msgs))
+            ctx.check(ok, "syndrome(codeword)=0", f"{kind}|-|syndrome(codeword)=0|second encoder built from the same (edited) tensor: syndrome / inverse do not match its generator", trial=trial)
+            del first
 
 
 def run_unit(ctx, u):
@@ -51,6 +104,9 @@ def run_unit(ctx, u):
         # the first one is judged again at the end (an object must stay right after later ones were built)
         for m in spec["members"] + spec["members"][:1]:
             run_unit(ctx, {"unit": u["unit"], "spec": m})
+        return
+    if spec["family"] == "arg_reuse":
+        _arg_reuse(ctx)
         return
     nm = cat.name(spec)
     rng = random.Random(f"c01-{ctx.seed}-{spec['id']}")
